@@ -177,7 +177,9 @@ def large_case(rng):
         rt.append((ai, rng.choice([1, max(t // 3, 1), max(t // 2, 1), max(t, 1), t + 1, rng.randint(1, t + 1)])))
     alg = rng.choice(['lf', 'ri', 'ri', 'rb'])
     lim = rng.choice([None, None, None, 1, 2, 3, 4, 4])
-    if rng.random() < 0.06:
+    if rng.random() < 0.02:
+        return neg_case(rng)
+    if rng.random() < 0.05:
         # OUTSIDE the property's domain (the Coq oracle skips its result clauses there): negative quantities in the
         # pool / non-positive limits; kept because they drive the model's KeyError / InvalidData / falsy-limit branches
         if rng.random() < 0.7:
@@ -194,6 +196,17 @@ def large_case(rng):
             lim = rng.choice([0, -1])
     return dict(alg=alg, pool=pool, outs=split_outs(rng, rcoin, rt), lim=lim, fee=fee,
                 minchg=rng.random() < 0.5, stream=rand_stream(rng, alg, n), ctx=CTXS[ci])
+
+
+def neg_case(rng):
+    """OUTSIDE the domain, aimed at the model's KeyError / InvalidData branches: a UTxO with a negative token quantity
+    is drawn by the improvement phase after the first phase covered the token request"""
+    q = rng.choice([1, 2, 5])
+    q2 = q if rng.random() < 0.5 else rng.randint(1, q)
+    pool = [mk_val(1200000, [(0, q)]), mk_val(500000, [(0, -q2)])] + [mk_val(rng.choice([ADA, 2 * ADA]), []) for _ in range(rng.randint(0, 2))]
+    alg = rng.choice(['ri', 'rb'])
+    return dict(alg=alg, pool=pool, outs=[mk_val(ADA, [(0, q)])], lim=rng.choice([None, 4]), fee=False, minchg=rng.random() < 0.6,
+                stream=[0] * 40 if alg == 'ri' or rng.random() < 0.5 else rand_stream(rng, 'rb', len(pool)), ctx=CTXS[rng.choice([0, 2])])
 
 
 def exhaustive_small(rng, max_pool, alpha, streams_per_cfg):
